@@ -55,7 +55,7 @@ CHECKS['C16'] = {
 }
 CHECKS['C17'] = {
 	'text': 'Full on the model with floats abstract: for every expression of the folder fragment (decimal and hex ints, floats, strings, unary sign, parentheses, the ten operators in flat chains, int/float/str casts, bare and Enum.Member.value references), every environment and every interpretation of float, whenever CPython yields a value the folder yields a value of the same type and content or refuses (agree: no guard; sound/refuse: guard H4 no 0X literal); folding a flat chain equals evaluating CPython\'s left-nested tree. Tied to the code by generated operator tables and three correspondence streams (real LiteralEvaluator.exec vs model with a symbolic-float oracle protocol; CPython eval vs evalPy; octal escape decoder), searched on the real code alone (exec(e) == eval(e) or an application error) including every formerly excluded region. Extended: the second observation point (enum value text in the transpiled output) is modelled (EmitValue, translated relay/literalize.j2): output_agree, output_sound; stream emitvalue.',
-	'note': TB + ' Reflections.type_of outcomes are observed, not modelled (C03). Recursion limit modelled as fuel. %-formatting, bytes, f-strings and escapes are outside evalPy (counted as unsupported). One known finding: escape-merge-concat.',
+	'note': TB + ' Reflections.type_of outcomes are observed, not modelled (C03). Recursion limit modelled as fuel. %-formatting, bytes, f-strings and escapes are outside evalPy (counted as unsupported). Known findings (known_findings.jsonl): output-unescaped-double-quote, output-python-escape-in-cpp-literal; escape-merge-concat was repaired (05486b1).',
 	'technique': 'Lean 4 proof (induction on fuel and flat chains, abstract float signature) + generated tables + differential correspondence + CPython oracle search',
 	'ref': 'DESIGN.md §5 C17, §10',
 }
@@ -68,14 +68,14 @@ CHECKS['C18'] = {
 
 CHECKS['C02'] = {
 	'text': 'Lean theorems: the operator ladder read from data/grammar.lark equals CPython\'s operator table on the common operators (decide over the generated table); for every operator term, with any redundant parentheses, the ladder-driven reference parser reads CPython\'s minimal text into a lark-shaped tree whose CPython-style reading (left-nested BinOp, n-ary BoolOp, Compare chains, UnaryOp) is the term (Tranp.Prec round-trip theorems + chain lemma, unbounded); decision logic of the first-match node-class dispatch over the generated resolver table, iff-characterisations of every function kind and their agreement with Python scoping under three stated coding conventions (counterexample without them). Tied to the code by two translators and three correspondence streams (lark tree vs reference parser; real node class at every tree position vs model; ast.parse vs astOf). Ternary, lambda, calls, chains, literals, comprehensions and statement nesting are checked by search only: canon(nodes(s)) == canon(ast.parse(s)) on generated programs. Extended: group_test for conditional expressions and lambdas in full generality (any nesting and redundant parentheses), prefix_grouping, compare_chain (n-ary Compare with two-word operators), call_arguments (kinds, labels, order).',
-	'note': TB + ' lark\'s LALR construction is assumed to return a derivation of the grammar; pyTable is transcribed from Grammar/python.gram and validated by stream pygroup. Ten known findings (constructs CPython and grammar.lark both accept but read differently), each with its own key.',
+	'note': TB + ' lark\'s LALR construction is assumed to return a derivation of the grammar; pyTable is transcribed from Grammar/python.gram and validated by stream pygroup. Thirteen known findings (constructs CPython and grammar.lark both accept but read differently), each with its own key.',
 	'technique': 'Lean 4 proof (precedence-climbing inversion, decide over generated tables) + differential correspondence + CPython-ast oracle search',
 	'ref': 'DESIGN.md §5 C02, §4 Prec, §10',
 }
 
 CHECKS['C01'] = {
 	'text': 'Partial (operator core): Lean theorems over an executable model of Py2Cpp operator rendering (operator.py node shapes, proc_binary_operation_expression, unary/ternary/group, the precedence guards added by fix 0598c93/5807b18) that interprets the translated operator templates, i18n table, grammar ladder and CppOperatorPrecedences: for every grammar-producible operator node without a comparison chain the emitted tokens are not fused by C++ lexing, parse under the C++ precedence table and regroup exactly like Python (group; by construction through Tranp.Prec); the emitter\'s table agrees with the C++ table; counterexample for comparison chains; operator semantics agree on the explicit 32-bit / non-negative-% / short-circuit subset (sem, agree); template/ladder totality by decide. Tied to the code by three streams (emit: exact emitted text of random operator trees; cpptable: g++\'s own grouping vs the trusted table; sem: denotations vs instrumented CPython and g++ -fsanitize=undefined). The rest of the property is a failing-input search: generated typed programs → real transpile → g++ -std=c++20 → run → compare with CPython. Extended: group_full (ternary, in/not in, fmod form; unique parse by a wrapper grammar over the C++ table), sem_full/agree_full over an abstract float signature, and a statements core (v = e, return, if/elif/else, while): stmt_decl (declaration placement = scoped reading) and stmt_agree (simulation between Python\'s function-level store and C++ block frames under scopeOK), tied by the stmt stream (model lines = real emitted lines, pyExec = CPython, cExec = g++ UBSan).',
-	'note': TB + ' Statements, classes, containers and strings are search-only; floats are outside sem; cppTable/denotePy/denoteCpp are transcriptions validated against g++ and CPython on every run; g++ 12 with std::format shimmed in the driver prelude. Six known findings (chain-compare, flat:len-arg, flat:range-arg, flat:dict-get, unsigned:len, cast:nested).',
+	'note': TB + ' Statements, classes, containers and strings are search-only; floats are outside sem; cppTable/denotePy/denoteCpp are transcriptions validated against g++ and CPython on every run; g++ 12 with std::format shimmed in the driver prelude. 29 known findings, each with its own key (known_findings.jsonl; among them chain-compare, flat:len-arg, flat:dict-get, unsigned:len, cast:nested, the range / enumerate loop forms, comprehension over enumerate, constructor initialiser list, temporary receivers).',
 	'technique': 'Lean 4 proof (precedence round trip via Tranp.Prec, decide over translated tables) + differential correspondence + compile-and-run search against CPython',
 	'ref': 'DESIGN.md §5 C01, §10',
 }
@@ -88,7 +88,7 @@ CHECKS['C07'] = {
 
 CHECKS['C03'] = {
 	'text': 'Partial (expression core): Lean model of ProceduralResolver, try_operation and TemplateManipulator over the dunder/method table translated from classes.py: every scalar row of the table states CPython\'s result type (dunder, dunder_unary, step_agreement by decide over the whole table); on the agreement core (Core = WellTyped) inference never fails, contains no Unknown (total) and the inferred type denotes the run-time value for every expression, environment and session state (sound_conf, sound); inference is independent of session history (session_independent); template resolution keeps every element type (template). Counterexamples outside the core for the listed known findings. Tied to the code by two streams (real Reflections.type_of vs model; CPython type(eval(e)) vs typeOf∘eval). Scope lookup, inheritance, user classes, enums, user generics and resolve_unknown are search-only: a run-time recorder under CPython vs type_of on generated expressions and whole programs. Extended: user classes with single inheritance and a class-based heap (sound_attr), iteration (sound_iter, iterates_user for both protocol forms, sound_for incl. tuple unpacking), declarations (sound_decl), chain_type, variable lookup through the C08 scope model (var_at, class_scope_rule); stream infer-programs over whole function bodies.',
-	'note': TB + ' Ten known findings (stub simplifications and Union handling), each with its own key; programs CPython rejects although the stub accepts them and operations the stub library does not declare are outside the quantifier.',
+	'note': TB + ' Fifteen known findings (stub simplifications, Union handling, generic methods through inheritance, literals with empty-first elements), each with its own key; programs CPython rejects although the stub accepts them and operations the stub library does not declare are outside the quantifier.',
 	'technique': 'Lean 4 proof (mutual structural induction over expressions, decide over the translated stub table) + differential correspondence + run-time type recorder search',
 	'ref': 'DESIGN.md §5 C03, §10',
 }
@@ -118,7 +118,7 @@ CHECKS['C08'] = {
 }
 CHECKS['C11'] = {
 	'text': 'Partial: Lean theorems over an executable model of the self-hosted engine (SyntaxParser matcher, ErrorCollector, rule.py): termination with an explicit linear fuel bound for every rule set passing a decidable well-formedness check, both shipped rule sets kernel-decided; a tree is returned only if every token was consumed, otherwise Errors.Syntax; the tree\'s leaves are exactly the tokens matched by named terminals, in source order; ladder rules yield flat chains (the five py ladders kernel-decided); the error line is within range under the source-map guard (counterexample for EOF-derived tokens = known finding). Tied to the code by the rules translator (regexps as classification tables evaluated by the real re) and three streams on real token lists. canon(engine tree) == canon(CPython ast) on grammar-derived sentences and the behaviour on mutated texts are search-only. Extended: ladder_group (the engine\'s flat chains over a tower of ladder rules are grouped as Tranp.Prec groups the same tokens) with group_partial_arith / group_partial_bool / group_levels_cpython for the py ladders; T2_else_syntax_guarded.',
-	'note': TB + ' Regexps and the tokenizer enter as trusted inputs (real token lists / classification tables); agreement with CPython grouping is search-only. One known finding: error-line:eof-derived-cause-token.',
+	'note': TB + ' Regexps and the tokenizer enter as trusted inputs (real token lists / classification tables); agreement with CPython grouping is search-only. Four known findings: error-line:eof-derived-cause-token, group:walrus-over-ternary, cost:exponential-in-nesting (parentheses, blocks).',
 	'technique': 'Lean 4 proof (fuel-bounded matcher, decide +kernel over translated rule sets) + differential correspondence + CPython-ast oracle search',
 	'ref': 'DESIGN.md §5 C11, §10',
 }
